@@ -22,9 +22,13 @@ import (
 func runCalciumLockLoss(c *Case, res *Result, cfg lockCfg) {
 	sim := simrt.New(c.Seed, c.Plan)
 	sim.KeepTrace = traceWanted
-	ccfg := cluCfg{ShareBase: 100, MaxShare: -1, Pods: []string{"p0"}, Nodes: []cluNode{{Name: "n0", Cores: 4, Memory: 8192 * mib, Pod: "p0", HBTTL: 36000}}}
+	ccfg := cluCfg{ShareBase: 100, MaxShare: -1, Pods: []string{"p0", "p1", "p2"}, Nodes: []cluNode{
+		{Name: "n0", Cores: 4, Memory: 8192 * mib, Pod: "p0", HBTTL: 36000},
+		{Name: "n1", Cores: 4, Memory: 8192 * mib, Pod: "p1", HBTTL: 36000},
+		{Name: "n2", Cores: 4, Memory: 8192 * mib, Pod: "p2", HBTTL: 36000}}}
 	w := newCluWorld(sim, res, "C19", ccfg, c.Seed)
 	defer w.cleanup()
+	w.shadow = &shadowPlugin{sim: sim, inst: sim.NewInstance()}
 	var ops []lockOp
 	for _, raw := range c.Ops {
 		var op lockOp
@@ -43,9 +47,11 @@ func runCalciumLockLoss(c *Case, res *Result, cfg lockCfg) {
 		ctx := context.Background()
 		sim.SetFaultsEnabled(false)
 		w.core = w.boot("")
-		if _, err := w.core.cal.AddPod(ctx, "p0", ""); err != nil {
-			res.Harness = "setup: " + err.Error()
-			return
+		for _, p := range ccfg.Pods {
+			if _, err := w.core.cal.AddPod(ctx, p, ""); err != nil {
+				res.Harness = "setup: " + err.Error()
+				return
+			}
 		}
 		for _, n := range ccfg.Nodes {
 			if err := w.addNode(ctx, n); err != nil {
@@ -53,7 +59,7 @@ func runCalciumLockLoss(c *Case, res *Result, cfg lockCfg) {
 				return
 			}
 		}
-		ch, err := w.core.cal.CreateWorkload(ctx, w.deployOpts(cluOp{App: "app", Entry: "main", Strategy: "AUTO", Count: 3, UsePod: true, Req: resReq{MemReq: 64 * mib}}))
+		ch, err := w.core.cal.CreateWorkload(ctx, w.deployOpts(cluOp{App: "app", Entry: "main", Strategy: "AUTO", Count: 3, Includes: []int{0}, Req: resReq{MemReq: 64 * mib}}))
 		if err != nil {
 			res.Harness = "setup create: " + err.Error()
 			return
@@ -73,6 +79,57 @@ func runCalciumLockLoss(c *Case, res *Result, cfg lockCfg) {
 		slow := 2*ttl + 10*time.Second
 		eng.SetSlow("Stop", slow)
 		for i, op := range ops {
+			if op.Kind == "capacity" {
+				// a section under several locks at once (a capacity query over machines of three
+				// pods holds the three pod locks); one of them is lost while a plugin is slow to
+				// answer, and the context the section runs under has to end
+				w.shadow.mu.Lock()
+				w.shadow.slowCapacity = slow
+				w.shadow.mu.Unlock()
+				before := len(w.shadow.cancelled())
+				done := make(chan error, 1)
+				t0 := time.Now()
+				go func() {
+					_, err := w.core.cal.CalculateCapacity(ctx, w.deployOpts(cluOp{App: "app", Entry: "main", Strategy: "AUTO", Count: 1, Includes: []int{0, 1, 2}, Req: resReq{MemReq: 64 * mib}}))
+					done <- err
+				}()
+				var revokedAt time.Time
+				pod := ccfg.Pods[op.Who%len(ccfg.Pods)]
+				if op.Loss != "" {
+					time.Sleep(3*time.Second + time.Duration(op.GapMs%4000)*time.Millisecond + offGrid(1))
+					_, lease := w.etcd.FirstCreated("/" + lockPrefix + "/" + fmt.Sprintf(cluster.PodLock, pod) + "/")
+					if lease != 0 && w.etcd.RevokeLease(lease) {
+						revokedAt = time.Now()
+						res.Probes["lease_revoked"]++
+						res.Probes["calcium_one_of_several_locks_revoked"]++
+					}
+				}
+				err := <-done
+				took := time.Since(t0)
+				res.OpsRun++
+				res.Nontrivial = true
+				cancelled := w.shadow.cancelled()[before:]
+				if revokedAt.IsZero() {
+					res.Probes["calcium_op_without_loss"]++
+					if len(cancelled) > 0 || err != nil && took < slow {
+						viol("cancelled-without-loss", "calcium", fmt.Sprintf("op#%d: a capacity query was cancelled after %v although none of its locks was lost: %v", i, took, err))
+					}
+				} else {
+					told := time.Duration(-1)
+					for _, at := range cancelled {
+						told = at.Sub(revokedAt)
+					}
+					res.Probes["loss_observed"]++
+					if told < 0 || told > bound {
+						viol("operation-continues-after-lock-loss", "calcium:revoke-one-of-several", fmt.Sprintf("op#%d: a capacity query held the locks of pods %v; the lease of the lock of %s was revoked %v into it; the context the section runs under was not cancelled within %v (cancelled after: %v; the query returned after %v with %v)", i, ccfg.Pods, pod, revokedAt.Sub(t0), bound, told, took, err))
+					}
+				}
+				w.shadow.mu.Lock()
+				w.shadow.slowCapacity = 0
+				w.shadow.mu.Unlock()
+				sim.Settle()
+				continue
+			}
 			id := ids[i%len(ids)]
 			typ := cluster.WorkloadStop
 			before := len(eng.CancelledOps())
